@@ -1989,6 +1989,10 @@ def clean_astext(node: nodes.Element) -> str:
         img["alt"] = ""
     for raw in list(findall(node)(nodes.raw)):
         raw.parent.remove(raw)
+    # reports raised while rendering the node (e.g. an unknown role in a heading)
+    # are not part of its text
+    for msg in list(findall(node)(nodes.system_message)):
+        msg.parent.remove(msg)
     return node.astext()
 
 
